@@ -819,22 +819,63 @@ func ruleByNesting(r *Run) {
 				o.Fail(r.pos(ret.Pos()), "By returns its receiver unchanged on some path: `by ()` (or this case) would group by all labels")
 				continue
 			}
-			al, ok := root.(*ssa.Alloc)
-			if !ok {
+			isRecv := func(base ssa.Value) bool { return base == ssa.Value(fn.Params[0]) }
+			var fs map[string]ssa.Value
+			if al, ok := root.(*ssa.Alloc); ok {
+				fs = allocFieldStores(al)
+			} else if call, ok := root.(*ssa.Call); ok {
+				// a constructor helper of the package that returns one literal: its parameters stand for the
+				// arguments of this call
+				h := staticCallee(call)
+				if h != nil && h.Blocks != nil && pkgOfFunc(h) == pkgOfFunc(fn) {
+					rets := returnsOf(h)
+					if len(rets) == 1 && len(rets[0].Results) == 1 {
+						if hal, ok := stripTypeOnly(rets[0].Results[0]).(*ssa.Alloc); ok {
+							args := call.Call.Args
+							argOf := func(v ssa.Value) (ssa.Value, bool) {
+								prm, ok := v.(*ssa.Parameter)
+								if !ok || prm.Parent() != h {
+									return nil, false
+								}
+								for i, hp := range h.Params {
+									if hp == prm && i < len(args) {
+										return args[i], true
+									}
+								}
+								return nil, false
+							}
+							fs = map[string]ssa.Value{}
+							for k, v := range allocFieldStores(hal) {
+								if a, ok := argOf(v); ok {
+									v = a
+								}
+								fs[k] = v
+							}
+							isRecv = func(base ssa.Value) bool {
+								if base == ssa.Value(fn.Params[0]) {
+									return true
+								}
+								a, ok := argOf(base)
+								return ok && a == ssa.Value(fn.Params[0])
+							}
+						}
+					}
+				}
+			}
+			if fs == nil {
 				good = false
 				o.Undecide(r.pos(ret.Pos()), "By returns %s", describe(root, 0))
 				continue
 			}
-			fs := allocFieldStores(al)
 			if _, isMake := fs["by"].(*ssa.MakeMap); !isMake {
 				good = false
 				o.Fail(r.pos(ret.Pos()), "the result's by-set is %s, not a fresh set built from the argument list", describe(fs["by"], 0))
 			}
-			if f, base, ok := loadOfField(fs["without"]); !ok || f != "without" || base != ssa.Value(fn.Params[0]) {
+			if f, base, ok := loadOfField(fs["without"]); !ok || f != "without" || !isRecv(base) {
 				good = false
 				o.Fail(r.pos(ret.Pos()), "the result's without-set is not the receiver's")
 			}
-			if f, base, ok := loadOfField(fs["entries"]); !ok || f != "entries" || base != ssa.Value(fn.Params[0]) {
+			if f, base, ok := loadOfField(fs["entries"]); !ok || f != "entries" || !isRecv(base) {
 				good = false
 				o.Fail(r.pos(ret.Pos()), "the result's entries are not the receiver's")
 			}
